@@ -249,7 +249,7 @@ func init() {
 		Title: "Parser accepts exactly spec-conforming files and extracts the denoted data",
 		Rule: "documents enumerated from the spec grammar: FA1/FA2/FA3 = 1-3 records x (date, should-total, record summary, <=2-3 entries from a 10-value menu x 6 entry-summary shapes); " +
 			"FB = shapes x indentation per record x LF/CRLF/mixed x blank-line runs x final newline x headline gap; FC = every time string <?D{1,2}:DD(am|pm)?>? as range start/end/open start, " +
-			"every duration layout as entry and should-total, dates as headlines; FD1/FD2 = every single (and pair of) rule-violating edit(s) from an 103-operator catalogue at every line of ~100 valid base documents. " +
+			"every duration layout as entry and should-total, dates as headlines; FD1/FD2 = every single (and pair of) rule-violating edit(s) from an " + fmt.Sprint(len(docgen.Ops)) + "-operator catalogue at every line of ~100 valid base documents. " +
 			"A case is one document text; non-trivial = classified valid or invalid by the reference (don't-care texts are counted separately); distinct by FNV-64 of the text.",
 		Assumptions: []string{
 			"specmodel.Parse (reference parser written from Specification.md; three-way cross-check against the generator's denotation on FA/FB)",
